@@ -236,7 +236,8 @@ def confirm_native(kind, case, tr):
                 add(d)
         for r in case['roots']:
             add(r)
-        return tr.rc == 0 and any(case['kinds'][t] != 'aggregate' and t not in spawned for t in need)
+        done = {e[1] for e in evs if e[0] == 'reap' and e[2] == 0}
+        return tr.rc == 0 and any((case['kinds'][t] == 'build' and t not in done) or (case['kinds'][t] == 'service' and t not in spawned) for t in need)
     if kind == 'outside':
         spawned = {e[1] for e in evs if e[0] == 'spawn'}
         need = set()
@@ -384,3 +385,90 @@ def late_request_role(sysm, u, m):
                         if m.eval(u.ghosts[k]['nstart.%d' % i], model_completion=True).as_long() >= 1:
                             return {'target': i, 'requester': label[2], 'step': k}
     return None
+
+
+# ---------------------------------------------------------------------- LOCAL obligations (one actor, open environment)
+LOCAL_PLAN = {
+    'C01': [('build', False), ('build', True), ('service', False), ('service', True), ('aggregate', False), ('aggregate', True)],
+    'C04': [('build', False), ('service', False), ('aggregate', False)],
+    'C06': [('build', True), ('service', True), ('aggregate', True)],
+    'C07': [('build', False), ('build', True), ('service', False), ('service', True)],
+    'C08': [('build', False), ('service', False)],
+    'C11': [('service', False), ('service', True)],
+    'C20': [('aggregate', False), ('aggregate', True)],
+}
+LOCAL_MONITORS = {
+    'C01': ['bad_decide', 'ok_without_cause', 'requested_non_dependency'],
+    'C04': ['late_unanswered', 'misdirected_ok'],
+    'C06': ['late_unanswered', 'bad_decide', 'ok_without_cause'],
+    'C07': ['ok_on_fail', 'ok_without_cause'],
+    'C08': ['twice'],
+    'C11': ['double_proc'],
+    'C20': ['ok_without_cause', 'late_unanswered', 'misdirected_ok'],
+}
+
+
+def run_local(arg):
+    prop, kind, watch, L, repo = arg
+    from ..local import LocalMonitor, LocalSystem
+    from .. import local_replay as lr
+    t0 = time.time()
+    out = {'kind': kind, 'watch': watch, 'L': L, 'queries': [], 'error': None, 'functions': [], 'local': True, 'witness': None}
+    try:
+        prog = Program(repo)
+        ls = LocalSystem(prog, kind, watch)
+        mon = LocalMonitor(watch)
+        u = ls.unroll(L, mon)
+        fns = set(ls.actors[ls.me].co.I.stats['fns'])
+        for bf in ls.bfs.values():
+            fns |= bf.sc.I.stats['fns']
+        out['functions'] = sorted(fns)
+        out['state_vars'] = len(u.states[0])
+        out['alternatives'] = len(u.alt_names)
+        s = u.solver(timeout_ms=300000)
+        G = u.ghosts[-1]
+        for name in LOCAL_MONITORS[prop]:
+            if name == 'twice' and watch:
+                continue
+            tq = time.time()
+            s.push()
+            s.add(z3.UGT(G['ndecide'], 1) if name == 'twice' else G[name])
+            # counterexamples the native harness can follow: no un-injectable faults
+            r = s.check()
+            res = {'name': 'local:%s' % name, 'verdict': str(r), 'solver_s': round(time.time() - tq, 2), 'monitor': name}
+            if r == z3.sat:
+                s.push()
+                for c in oracle_constraints(u, replayable):
+                    s.add(c)
+                if s.check() == z3.sat:
+                    m = s.model()
+                else:
+                    s.pop()
+                    s.push()
+                    s.check()
+                    m = s.model()
+                res['trace'] = lr.model_trace(ls, u, m)
+                s.pop()
+            s.pop()
+            out['queries'].append(res)
+        # witness: a run in which the actor starts its script / acknowledges (vacuity guard + translator validation)
+        s.push()
+        for c in oracle_constraints(u, nofail) + oracle_constraints(u, replayable):
+            s.add(c)
+        if kind == 'aggregate':
+            s.add(z3.Or([u.obs[k + 1].any('emit', lambda key: key[2][0] == 'Ok') for k in range(L)]))
+        else:
+            s.add(G['ndecide'] != 0)
+            s.add(z3.Or([u.obs[k + 1].any('emit', lambda key: key[2][0] == 'Ok' and key[2][1] == ('Build' if kind == 'build' else 'Service')) for k in range(L)]))
+        if s.check() == z3.sat:
+            out['witness'] = lr.model_trace(ls, u, s.model())
+            ev = lambda t_: z3.is_true(s.model().eval(t_, model_completion=True))
+            out['witness_model_oks'] = sum(1 for k in range(L) for key, (g, f) in u.obs[k + 1].ev.get('emit', {}).items() if key[2][0] == 'Ok' and ev(g))
+            out['witness_model_spawns'] = sum(1 for k in range(L) for key, (g, f) in u.obs[k + 1].ev.get('spawn', {}).items() if ev(g))
+        s.pop()
+    except Unsupported as e:
+        out['error'] = 'unsupported: %s' % e
+    except Exception as e:   # pragma: no cover
+        out['error'] = 'exception: %s\n%s' % (e, traceback.format_exc()[-1500:])
+    out['wall_s'] = round(time.time() - t0, 1)
+    return out
